@@ -24,13 +24,15 @@ RULE = ('prefixes from the name generator; forwarder replies {200 with/without b
 
 C = lambda s: rc.comp(8, s)   # noqa
 REPLIES = ['200', '200-nobody', '400', '403-nobody', '404', '500-nobody', 'random-code', 'nack', 'silence', 'garbage',
-           'empty-content', 'no-content', 'wrong-outer', 'bad-signature', '200-extra-fields']
+           'empty-content', 'no-content', 'wrong-outer', 'bad-signature', '200-extra-fields', '200-unknown-fields-inside']
 
 
-def control_response(status, text=b'OK', body=None):
-    v = rc.enc_tlv(0x66, rc.enc_nni(status)) + rc.enc_tlv(0x67, text)
+def control_response(status, text=b'OK', body=None, unknown=None):
+    """unknown: optional callable() -> bytes of zero or more unrecognised non-critical elements, called at every gap"""
+    u = unknown or (lambda: b'')
+    v = u() + rc.enc_tlv(0x66, rc.enc_nni(status)) + u() + rc.enc_tlv(0x67, text) + u()
     if body is not None:
-        v += rc.enc_tlv(0x68, body)
+        v += rc.enc_tlv(0x68, body) + u()
     return rc.enc_tlv(0x65, v)
 
 
@@ -140,6 +142,12 @@ class Forwarder:
             content = control_response(200, b'OK', cp_body(prefix))
         elif kind == '200-nobody':
             content = control_response(200, b'OK')
+        elif kind == '200-unknown-fields-inside':
+            # fields of a newer forwarder between the known ones, in the response and in its ControlParameters
+            U = lambda t: rc.enc_tlv(t, b'new')   # noqa
+            body = U(0xF0) + rc.enc_name(prefix) + U(0x3E8) + rc.enc_tlv(0x69, rc.enc_nni(300)) + U(0xF0) + rc.enc_tlv(0x6f, b'\x00') + \
+                rc.enc_tlv(0x6a, b'\x00') + U(0xFFFE) + rc.enc_tlv(0x6c, b'\x01')
+            content = rc.enc_tlv(0x65, U(0xF0) + rc.enc_tlv(0x66, rc.enc_nni(200)) + U(0x3E8) + rc.enc_tlv(0x67, b'OK') + U(0xF0) + rc.enc_tlv(0x68, body))
         elif kind == '200-extra-fields':
             content = control_response(200, 'Ωk'.encode(), cp_body(prefix, rc.enc_tlv(0x6d, rc.enc_nni(2**40))) + rc.enc_tlv(0xF0, b'zz'))
         elif kind == '400':
@@ -168,8 +176,10 @@ class Forwarder:
         self.face.deliver_task(d)
 
 
-def expected_result(fe, kind):
-    if kind in ('200', '200-nobody', '200-extra-fields'):
+def expected_result(fe, kind, strict_app_validator=False):
+    if fe == 'v1' and strict_app_validator:
+        return False        # the legacy front-end validates command responses with the application's data validator: it refuses
+    if kind in ('200', '200-nobody', '200-extra-fields', '200-unknown-fields-inside'):
         return True
     if kind == 'bad-signature':
         return fe == 'v2'       # v2 commands use pass_all; the legacy front-end validates the digest signature
@@ -180,6 +190,7 @@ def run_exchange(ctx, rng, fe, ops, script, jitter=False):
     """ops: list of (verb, prefix) issued concurrently at the same instant."""
     res = {'viol': [], 'rets': None, 'fw': None}
     reuse_lists = len(ops) > 1 and rng.random() < 0.4
+    res['strict'] = fe == 'v1' and rng.random() < 0.15
 
     async def main(S):
         face = RecFace()
@@ -189,6 +200,13 @@ def run_exchange(ctx, rng, fe, ops, script, jitter=False):
             the_app = appv1.NDNApp(face=face, keychain=KeychainDigest())
         fw = Forwarder(face, fe, script, ctx, rng, S)
         res['fw'] = fw
+        if res['strict']:
+            # the application trusts nothing that its own validator does not accept - command responses included
+            async def refuse(name, sig):
+                res['validator_calls'] = res.get('validator_calls', 0) + 1
+                return False
+            the_app.data_validator = refuse
+            ctx.event('exchange-with-strict-application-validator')
         main_task = asyncio.ensure_future(the_app.main_loop())
         await asyncio.sleep(0)
         await asyncio.sleep(0.005)
@@ -283,7 +301,7 @@ def run_exchange(ctx, rng, fe, ops, script, jitter=False):
         # identical (verb,prefix) calls are interchangeable: compare multisets per key below
     for key, lst in by_key.items():
         calls = [(rk, rv) for (verb, prefix), (rk, rv) in zip(ops, res['rets'] or []) if (verb, tuple(prefix)) == key]
-        exp = sorted(expected_result(fe, c['reply']) for c in lst)
+        exp = sorted(expected_result(fe, c['reply'], res.get('strict')) for c in lst)
         excs = [rv for rk, rv in calls if rk == 'exc']
         for e in excs:
             kind = ','.join(sorted({c['reply'] for c in lst}))
@@ -399,11 +417,20 @@ def check_parse_response(ctx, rng):
         text = rng.choice(['', 'OK', 'Not found', 'Ωmega', 'x' * 300])
         fields = {}
         body = None
+        # a newer forwarder may add fields: unrecognised non-critical elements (even type numbers >= 32) at any gap
+        with_unknown = i % 3 == 1
+        n_unknown = [0]
+
+        def unk():
+            if with_unknown and rng.random() < 0.35:
+                n_unknown[0] += 1
+                return rc.enc_tlv(rng.choice([0xF0, 0x3E8, 0xFFFE, 0x8e]), rng.choice([b'', b'\x01', b'future-field']))
+            return b''
         if rng.random() < 0.7:
             nm = gen.simple_name(rng, 0, 4)
-            body = b''
+            body = unk()
             if rng.random() < 0.8:
-                body += rc.enc_name(nm)
+                body += rc.enc_name(nm) + unk()
                 fields['name'] = nm
             for fname, t in (('face_id', 0x69), ('uri', 0x72), ('local_uri', 0x81), ('origin', 0x6f), ('cost', 0x6a), ('capacity', 0x83),
                              ('count', 0x84), ('base_congestion_mark_interval', 0x87), ('default_congestion_threshold', 0x88),
@@ -411,12 +438,14 @@ def check_parse_response(ctx, rng):
                 if rng.random() < 0.3:
                     if fname in ('uri', 'local_uri'):
                         v = rng.choice(['udp4://1.2.3.4:6363', '', 'ünï://x'])
-                        body += rc.enc_tlv(t, v.encode())
+                        body += rc.enc_tlv(t, v.encode()) + unk()
                     else:
                         v = rng.choice([0, 1, 255, 256, 65536, 2**32, 2**64 - 1])
-                        body += rc.enc_tlv(t, rc.enc_nni(v))
+                        body += rc.enc_tlv(t, rc.enc_nni(v)) + unk()
                     fields[fname] = v
-        wire = control_response(status, text.encode(), body)
+        wire = control_response(status, text.encode(), body, unknown=unk)
+        if n_unknown[0]:
+            ctx.event('parse-response-with-unknown-elements')
         w = {'status': status, 'text': text, 'fields': {k: (v if not isinstance(v, list) else [c.hex() for c in v]) for k, v in fields.items()}, 'wire': wire[:300]}
         try:
             r = nfd_mgmt.parse_response(wire)
@@ -473,7 +502,7 @@ def run(ctx):
         for variant in range(ctx.n(12, 400)):
             check_routes(ctx, rng, fe, variant)
     check_parse_response(ctx, rng)
-    for k in ['caller-edits-name-list-after-call', 'exchange', 'concurrent-exchange', 'route-connection', 'reconnect-within-one-millisecond', 'parse-response'] + [f'reply-{r}' for r in REPLIES]:
+    for k in ['exchange-with-strict-application-validator', 'parse-response-with-unknown-elements', 'caller-edits-name-list-after-call', 'exchange', 'concurrent-exchange', 'route-connection', 'reconnect-within-one-millisecond', 'parse-response'] + [f'reply-{r}' for r in REPLIES]:
         ctx.need_event(k)
     ctx.assumptions = ['a 200 reply whose signature is bad counts as success in the current front-end (its commands use pass_all) and as failure in the legacy one',
                        'jitter clock: non-decreasing, 0..0.6 ms per reading (a legal wall clock)']
